@@ -39,7 +39,7 @@ def generate(rng, tier):
     case = gen.gen_case(rng, {
         "p_info": 0.0, "p_demux": 0.12, "p_minimal_report": 0.0, "json": False, "p_stdout": 0.0,
         "in_containers": ("",), "out_containers": ("",), "fastq": True, "p_interleaved_out": 0.0,
-        "n_records": (0, 30), "p_interleaved_redirect": 0.0, "p_huge": 0.012,
+        "n_records": (0, 30), "p_interleaved_redirect": 0.0, "p_huge": 0.012, "p_quiet": 0.04, "p_debug": 0.03,
     })
     case["input"]["layout"] = "two" if case["paired"] else "single"
     case["input"]["containers"] = [""] * (2 if case["paired"] else 1)
